@@ -17,14 +17,16 @@ Definition d_act (x : sx) : option act :=
    optional destination (none: internal transition), optional after callback *)
 Record cand : Type := mkCand {
   c_prep : option act; c_cond : option (act * bool); c_before : option act;
-  c_dest : option st; c_after : option act }.
+  c_dest : option st; c_after : option act;
+  c_exit : option act; c_enter : option act }.   (* coroutine on_exit of the source / on_enter of the destination *)
 
 Definition d_cand (x : sx) : option cand :=
   match x with
-  | L [p; c; b; d; a] =>
+  | L [p; c; b; d; a; ex; en] =>
       do p' <- d_option d_act p; do c' <- d_option (d_pair d_act d_bool) c;
       do b' <- d_option d_act b; do d' <- d_option d_nat d; do a' <- d_option d_act a;
-      Some (mkCand p' c' b' d' a')
+      do ex' <- d_option d_act ex; do en' <- d_option d_act en;
+      Some (mkCand p' c' b' d' a' ex' en')
   | _ => None
   end.
 
@@ -32,7 +34,8 @@ Definition ocb (j slot : nat) (o : option act) : list instr :=
   match o with Some a => [ICb j slot a] | None => [] end.
 
 (* AsyncEvent._process / AsyncTransition.execute for fixed condition results: candidates are tried in
-   order; the first whose condition passes cancels the other tasks, runs before, sets the state, runs after *)
+   order; the first whose condition passes cancels the other tasks, runs before, then _change_state (on_exit of
+   the source [slot 5], set_state, on_enter of the destination [slot 6]), then after *)
 Fixpoint compile (j : nat) (cs : list cand) : list instr :=
   match cs with
   | [] => []
@@ -43,7 +46,10 @@ Fixpoint compile (j : nat) (cs : list cand) : list instr :=
       | oc =>
           match oc with Some (a, _) => [ICb j 1 a] | None => [] end ++
           [IPass] ++ ocb j 2 (c_before c) ++
-          match c_dest c with Some d => [ISet d] | None => [] end ++ ocb j 3 (c_after c)
+          match c_dest c with
+          | Some d => ocb j 5 (c_exit c) ++ [ISet d] ++ ocb j 6 (c_enter c)
+          | None => []
+          end ++ ocb j 3 (c_after c)
       end
   end.
 
